@@ -86,6 +86,11 @@ type HealthMonitor struct {
 	mu     sync.RWMutex
 	health PartnerHealth
 
+	// notifyMu serialises every change of the Healthy flag with the delivery of the event
+	// that announces it, so that handlers see partner_down / partner_up in the order the
+	// transitions happened even when CheckNow runs concurrently with the monitor loop.
+	notifyMu sync.Mutex
+
 	// Statistics
 	totalChecks   uint64
 	totalFailures uint64
@@ -281,6 +286,8 @@ func (m *HealthMonitor) performCheck() error {
 
 // recordFailure records a failed health check.
 func (m *HealthMonitor) recordFailure(err error) error {
+	m.notifyMu.Lock()
+	defer m.notifyMu.Unlock()
 	m.mu.Lock()
 
 	wasHealthy := m.health.Healthy
@@ -348,6 +355,8 @@ func (m *HealthMonitor) recordFailure(err error) error {
 
 // recordSuccess records a successful health check.
 func (m *HealthMonitor) recordSuccess(responseTime time.Duration, partnerID string, partnerRole Role, sessions int) {
+	m.notifyMu.Lock()
+	defer m.notifyMu.Unlock()
 	m.mu.Lock()
 
 	wasUnhealthy := !m.health.Healthy
@@ -415,11 +424,30 @@ func (m *HealthMonitor) recordSuccess(responseTime time.Duration, partnerID stri
 
 // SetPartner updates the partner info (useful for dynamic configuration).
 func (m *HealthMonitor) SetPartner(partner *PartnerInfo) {
+	m.notifyMu.Lock()
+	defer m.notifyMu.Unlock()
+
 	m.mu.Lock()
-	defer m.mu.Unlock()
+	wasUnhealthy := !m.health.Healthy
 	m.partner = partner
 	// Reset health state when partner changes
 	m.health = PartnerHealth{
 		Healthy: true,
+	}
+	handlers := make([]HealthEventHandler, len(m.handlers))
+	copy(handlers, m.handlers)
+	health := m.health
+	m.mu.Unlock()
+
+	// The flag went from unhealthy to healthy: tell the handlers, as a recovery would.
+	if wasUnhealthy {
+		event := HealthEvent{
+			Type:      HealthEventPartnerUp,
+			Timestamp: time.Now(),
+			Health:    health,
+		}
+		for _, handler := range handlers {
+			handler(event)
+		}
 	}
 }
